@@ -298,8 +298,10 @@ def parse_scenario_result(out: str):
 
 
 # ------------------------------------------------------------------ implementation-side hash chain checks
-def hash_chain_problems(logs):
-    """prev-hash links, hash = function of (prev, command, stripped playlogs), hash locates its log."""
+def hash_chain_problems(logs, live=None):
+    """prev-hash links, hash = function of (prev, command, stripped playlogs), hash locates its log - in a history built from
+    the logs and, when `live` (the engine's own SimulationHistory, whatever bookkeeping it accumulated over the executions and
+    rollbacks that produced it) is given, in that one too."""
     from simaple.simulate.policy.base import OperationLog, SimulationHistory
     probs = []
     for i in range(1, len(logs)):
@@ -320,6 +322,14 @@ def hash_chain_problems(logs):
                 j = repr(ex)
             if j != i:
                 probs.append("get_hash_index(hash of log %d) = %r" % (i, j))
+        if live is not None and hasattr(live, "get_hash_index"):
+            for i, l in enumerate(logs):
+                try:
+                    j = live.get_hash_index(l.hash)
+                except Exception as ex:     # noqa
+                    j = repr(ex)
+                if j != i:
+                    probs.append("the engine's own history: get_hash_index(hash of log %d) = %r" % (i, j))
         for unknown in ("0" * 40, hashes[-1][::-1] if hashes[-1][::-1] not in hashes else "f" * 40):
             if unknown in hashes:
                 continue
